@@ -223,6 +223,8 @@ def search(ctx, scales_mod, np):
                 for z in (2.0, 20.1):
                     f0 = 1960.0 * (z + 0.53) / (26.28 - z)
                     fs += [f0 * (1 + k * 1e-12) for k in range(-5, 6)]
+                    # ... and the whole hertz around it (the break-points are 204.23.. Hz and 6542.91.. Hz, not whole numbers)
+                    fs += [math.floor(f0) - 1 + 3.0 * k / 257 for k in range(258)]
                 fs = sorted(fs)
             prev = None
             for f in fs:
